@@ -1,0 +1,399 @@
+//go:build verif
+
+package hsms
+
+import "runtime"
+
+// Contracts and specification functions for the HSMS decoder (see /verif/DESIGN.md).
+
+// specDefinedSType: SType values defined by SEMI E37 (0 = data message).
+func specDefinedSType(s int) bool {
+	return s == 0 || s == 1 || s == 2 || s == 3 || s == 4 || s == 5 || s == 6 || s == 7 || s == 9
+}
+
+func specPow256(e int) int {
+	if e <= 0 {
+		return 1
+	}
+	if e == 1 {
+		return 256
+	}
+	return 65536
+}
+
+// specDecPrefix: the value accumulated from the first k of the n big-endian length bytes b0 b1 b2.
+func specDecPrefix(n int, k int, b0 int, b1 int, b2 int) int {
+	if k <= 0 {
+		return 0
+	}
+	if k == 1 {
+		return b0 * specPow256(n-1)
+	}
+	if k == 2 {
+		return b0*specPow256(n-1) + b1*specPow256(n-2)
+	}
+	return b0*65536 + b1*256 + b2
+}
+
+// specDecLen: the declared length held in n (1..3) big-endian length bytes.
+func specDecLen(n int, b0 int, b1 int, b2 int) int {
+	return specDecPrefix(n, n, b0, b1, b2)
+}
+
+func specBE16(b0 int, b1 int) int { return b0*256 + b1 }
+
+func specBE32(b0 int, b1 int, b2 int, b3 int) int {
+	return b0*16777216 + b1*65536 + b2*256 + b3
+}
+
+func specBE64(b0 int, b1 int, b2 int, b3 int, b4 int, b5 int, b6 int, b7 int) int {
+	return specBE32(b0, b1, b2, b3)*4294967296 + specBE32(b4, b5, b6, b7)
+}
+
+func specIsItemCode(fc int) bool {
+	return fc == 0 || fc == 8 || fc == 9 || fc == 16 || fc == 24 || fc == 25 || fc == 26 || fc == 28 ||
+		fc == 32 || fc == 36 || fc == 40 || fc == 41 || fc == 42 || fc == 44
+}
+
+//@ func (*parser).parseMessageLength
+//@   property C03 C07
+//@   allocates 0
+//@   bounded_view p.input
+//@   modifies p.pos, p.msgLength
+//@   requires p.pos == 0
+//@   let wellFramed = len(p.input) >= 14 && specBE32(p.input[0], p.input[1], p.input[2], p.input[3]) == len(p.input) - 4
+//@   ensures ok == wellFramed
+//@   ensures ok ==> p.pos == 4 && p.msgLength == len(p.input) - 4
+
+//@ func (*parser).parseInt
+//@   property C01 C03 C07
+//@   bounded_view p.input
+//@   maypanic
+//@   modifies p.pos
+//@   split byteSize in 1, 2, 4, 8
+//@   requires specIsIntW(byteSize) && 0 <= p.pos && 0 <= length && length <= len(p.input) - p.pos
+//@   let q = old(p.pos)
+//@   let n = length / byteSize
+//@   let r = cast(dataItem, *IntNode)
+//@   ensures length % byteSize != 0 ==> !ok && p.pos == q
+//@   ensures length % byteSize == 0 ==> ok && p.pos == q + length
+//@   ensures ok ==> typeis(dataItem, *IntNode) && r.byteSize == byteSize && len(r.values) == n && len(r.variables) == 0
+//@   ensures ok && byteSize == 1 ==> forall i int :: 0 <= i && i < n ==> r.values[i] == int8(p.input[q+i])
+//@   ensures ok && byteSize == 2 ==> forall i int :: 0 <= i && i < n ==> r.values[i] == int16(specBE16(p.input[q+2*i], p.input[q+2*i+1]))
+//@   ensures ok && byteSize == 4 ==> forall i int :: 0 <= i && i < n ==> r.values[i] == int32(specBE32(p.input[q+4*i], p.input[q+4*i+1], p.input[q+4*i+2], p.input[q+4*i+3]))
+//@   ensures ok && byteSize == 8 ==> forall i int :: 0 <= i && i < n ==> r.values[i] == int64(specBE64(p.input[q+8*i], p.input[q+8*i+1], p.input[q+8*i+2], p.input[q+8*i+3], p.input[q+8*i+4], p.input[q+8*i+5], p.input[q+8*i+6], p.input[q+8*i+7]))
+//@   allocates 64*length + 640
+//@   allocates_on_panic 64*length + 640
+//@   loop 1
+//@     invariant allocated() - old(allocated()) <= 16*valueCounts + 16*i
+//@     invariant 0 <= i && i <= valueCounts && valueCounts == n && length % byteSize == 0 && len(values) == n && fresh(values) && p.pos == q
+//@     invariant forall k int :: 0 <= k && k < i ==> isint(values[k])
+//@     invariant byteSize == 1 ==> forall k int :: 0 <= k && k < i ==> ival(values[k]) == int8(p.input[q+k])
+//@     invariant byteSize == 2 ==> forall k int :: 0 <= k && k < i ==> ival(values[k]) == int16(specBE16(p.input[q+2*k], p.input[q+2*k+1]))
+//@     invariant byteSize == 4 ==> forall k int :: 0 <= k && k < i ==> ival(values[k]) == int32(specBE32(p.input[q+4*k], p.input[q+4*k+1], p.input[q+4*k+2], p.input[q+4*k+3]))
+//@     invariant byteSize == 8 ==> forall k int :: 0 <= k && k < i ==> ival(values[k]) == int64(specBE64(p.input[q+8*k], p.input[q+8*k+1], p.input[q+8*k+2], p.input[q+8*k+3], p.input[q+8*k+4], p.input[q+8*k+5], p.input[q+8*k+6], p.input[q+8*k+7]))
+
+//@ func (*parser).parseUint
+//@   property C01 C03 C07
+//@   bounded_view p.input
+//@   maypanic
+//@   modifies p.pos
+//@   split byteSize in 1, 2, 4, 8
+//@   requires specIsIntW(byteSize) && 0 <= p.pos && 0 <= length && length <= len(p.input) - p.pos
+//@   let q = old(p.pos)
+//@   let n = length / byteSize
+//@   let r = cast(dataItem, *UintNode)
+//@   ensures length % byteSize != 0 ==> !ok && p.pos == q
+//@   ensures length % byteSize == 0 ==> ok && p.pos == q + length
+//@   ensures ok ==> typeis(dataItem, *UintNode) && r.byteSize == byteSize && len(r.values) == n && len(r.variables) == 0
+//@   ensures ok && byteSize == 1 ==> forall i int :: 0 <= i && i < n ==> r.values[i] == p.input[q+i]
+//@   ensures ok && byteSize == 2 ==> forall i int :: 0 <= i && i < n ==> r.values[i] == specBE16(p.input[q+2*i], p.input[q+2*i+1])
+//@   ensures ok && byteSize == 4 ==> forall i int :: 0 <= i && i < n ==> r.values[i] == specBE32(p.input[q+4*i], p.input[q+4*i+1], p.input[q+4*i+2], p.input[q+4*i+3])
+//@   ensures ok && byteSize == 8 ==> forall i int :: 0 <= i && i < n ==> r.values[i] == specBE64(p.input[q+8*i], p.input[q+8*i+1], p.input[q+8*i+2], p.input[q+8*i+3], p.input[q+8*i+4], p.input[q+8*i+5], p.input[q+8*i+6], p.input[q+8*i+7])
+//@   allocates 64*length + 640
+//@   allocates_on_panic 64*length + 640
+//@   loop 1
+//@     invariant allocated() - old(allocated()) <= 16*valueCounts + 16*i
+//@     invariant 0 <= i && i <= valueCounts && valueCounts == n && length % byteSize == 0 && len(values) == n && fresh(values) && p.pos == q
+//@     invariant forall k int :: 0 <= k && k < i ==> isint(values[k])
+//@     invariant byteSize == 1 ==> forall k int :: 0 <= k && k < i ==> ival(values[k]) == p.input[q+k]
+//@     invariant byteSize == 2 ==> forall k int :: 0 <= k && k < i ==> ival(values[k]) == specBE16(p.input[q+2*k], p.input[q+2*k+1])
+//@     invariant byteSize == 4 ==> forall k int :: 0 <= k && k < i ==> ival(values[k]) == specBE32(p.input[q+4*k], p.input[q+4*k+1], p.input[q+4*k+2], p.input[q+4*k+3])
+//@     invariant byteSize == 8 ==> forall k int :: 0 <= k && k < i ==> ival(values[k]) == specBE64(p.input[q+8*k], p.input[q+8*k+1], p.input[q+8*k+2], p.input[q+8*k+3], p.input[q+8*k+4], p.input[q+8*k+5], p.input[q+8*k+6], p.input[q+8*k+7])
+
+//@ func (*parser).parseFloat
+//@   property C01 C03 C07
+//@   bounded_view p.input
+//@   maypanic
+//@   modifies p.pos
+//@   split byteSize in 4, 8
+//@   requires specIsFloatW(byteSize) && 0 <= p.pos && 0 <= length && length <= len(p.input) - p.pos
+//@   let q = old(p.pos)
+//@   let n = length / byteSize
+//@   let r = cast(dataItem, *FloatNode)
+//@   ensures length % byteSize != 0 ==> !ok && p.pos == q
+//@   ensures length % byteSize == 0 ==> ok && p.pos == q + length
+//@   ensures ok ==> typeis(dataItem, *FloatNode) && r.byteSize == byteSize && len(r.values) == n && len(r.variables) == 0
+//@   ensures ok && byteSize == 4 ==> forall i int :: 0 <= i && i < n ==> r.values[i] == f32frombits(specBE32(p.input[q+4*i], p.input[q+4*i+1], p.input[q+4*i+2], p.input[q+4*i+3]))
+//@   ensures ok && byteSize == 8 ==> forall i int :: 0 <= i && i < n ==> r.values[i] == f64frombits(specBE64(p.input[q+8*i], p.input[q+8*i+1], p.input[q+8*i+2], p.input[q+8*i+3], p.input[q+8*i+4], p.input[q+8*i+5], p.input[q+8*i+6], p.input[q+8*i+7]))
+//@   allocates 64*length + 640
+//@   allocates_on_panic 64*length + 640
+//@   loop 1
+//@     invariant allocated() - old(allocated()) <= 16*valueCounts + 16*i
+//@     invariant 0 <= i && i <= valueCounts && valueCounts == n && length % byteSize == 0 && len(values) == n && fresh(values) && p.pos == q
+//@     invariant forall k int :: 0 <= k && k < i ==> isfloat(values[k])
+//@     invariant byteSize == 4 ==> forall k int :: 0 <= k && k < i ==> fval(values[k]) == f32frombits(specBE32(p.input[q+4*k], p.input[q+4*k+1], p.input[q+4*k+2], p.input[q+4*k+3]))
+//@     invariant byteSize == 8 ==> forall k int :: 0 <= k && k < i ==> fval(values[k]) == f64frombits(specBE64(p.input[q+8*k], p.input[q+8*k+1], p.input[q+8*k+2], p.input[q+8*k+3], p.input[q+8*k+4], p.input[q+8*k+5], p.input[q+8*k+6], p.input[q+8*k+7]))
+
+//@ func (*parser).parseMessageText
+//@   property C01 C03 C07 C13
+//@   bounded_view p.input
+//@   maypanic
+//@   modifies p.pos
+//@   decreases len(p.input) - p.pos
+//@   requires 0 <= p.pos && p.pos <= len(p.input)
+//@   let q = old(p.pos)
+//@   let nlb = p.input[q] % 4
+//@   let fc = p.input[q] / 4
+//@   let dl = specDecLen(nlb, p.input[q+1], p.input[q+2], p.input[q+3])
+//@   let body = q + 1 + nlb
+//@   ensures p.msgLength == 10 ==> ok && p.pos == q && typeis(dataItem, emptyItemNode)
+//@   ensures ok && p.msgLength != 10 ==> q < len(p.input) && 1 <= nlb && specIsItemCode(fc) && body <= p.pos && p.pos <= len(p.input)
+//@   ensures ok && p.msgLength != 10 && fc != 0 ==> p.pos == body + dl
+//@   ensures ok && p.msgLength != 10 && fc == 0 ==> typeis(dataItem, *ListNode) && len(cast(dataItem, *ListNode).values) == dl && len(cast(dataItem, *ListNode).variables) == 0
+//@   ensures ok && p.msgLength != 10 && fc == 16 ==> typeis(dataItem, *ASCIINode) && cast(dataItem, *ASCIINode).isValue && len(cast(dataItem, *ASCIINode).value) == dl
+//@   ensures ok && p.msgLength != 10 && fc == 16 ==> forall i int :: 0 <= i && i < dl ==> cast(dataItem, *ASCIINode).value[i] == p.input[body+i]
+//@   ensures ok && p.msgLength != 10 && fc == 8 ==> typeis(dataItem, *BinaryNode) && len(cast(dataItem, *BinaryNode).values) == dl && len(cast(dataItem, *BinaryNode).variables) == 0
+//@   ensures ok && p.msgLength != 10 && fc == 8 ==> forall i int :: 0 <= i && i < dl ==> cast(dataItem, *BinaryNode).values[i] == p.input[body+i]
+//@   ensures ok && p.msgLength != 10 && fc == 9 ==> typeis(dataItem, *BooleanNode) && len(cast(dataItem, *BooleanNode).values) == dl && len(cast(dataItem, *BooleanNode).variables) == 0
+//@   ensures ok && p.msgLength != 10 && fc == 9 ==> forall i int :: 0 <= i && i < dl ==> cast(dataItem, *BooleanNode).values[i] == (p.input[body+i] != 0)
+//@   ensures ok && p.msgLength != 10 && (fc == 25 || fc == 26 || fc == 28 || fc == 24) ==> typeis(dataItem, *IntNode) && len(cast(dataItem, *IntNode).variables) == 0
+//@   ensures ok && p.msgLength != 10 && fc == 25 ==> cast(dataItem, *IntNode).byteSize == 1 && len(cast(dataItem, *IntNode).values) == dl
+//@   ensures ok && p.msgLength != 10 && fc == 26 ==> cast(dataItem, *IntNode).byteSize == 2 && len(cast(dataItem, *IntNode).values)*2 == dl
+//@   ensures ok && p.msgLength != 10 && fc == 28 ==> cast(dataItem, *IntNode).byteSize == 4 && len(cast(dataItem, *IntNode).values)*4 == dl
+//@   ensures ok && p.msgLength != 10 && fc == 24 ==> cast(dataItem, *IntNode).byteSize == 8 && len(cast(dataItem, *IntNode).values)*8 == dl
+//@   ensures ok && p.msgLength != 10 && (fc == 41 || fc == 42 || fc == 44 || fc == 40) ==> typeis(dataItem, *UintNode) && len(cast(dataItem, *UintNode).variables) == 0
+//@   ensures ok && p.msgLength != 10 && fc == 41 ==> cast(dataItem, *UintNode).byteSize == 1 && len(cast(dataItem, *UintNode).values) == dl
+//@   ensures ok && p.msgLength != 10 && fc == 42 ==> cast(dataItem, *UintNode).byteSize == 2 && len(cast(dataItem, *UintNode).values)*2 == dl
+//@   ensures ok && p.msgLength != 10 && fc == 44 ==> cast(dataItem, *UintNode).byteSize == 4 && len(cast(dataItem, *UintNode).values)*4 == dl
+//@   ensures ok && p.msgLength != 10 && fc == 40 ==> cast(dataItem, *UintNode).byteSize == 8 && len(cast(dataItem, *UintNode).values)*8 == dl
+//@   ensures ok && p.msgLength != 10 && (fc == 36 || fc == 32) ==> typeis(dataItem, *FloatNode) && len(cast(dataItem, *FloatNode).variables) == 0
+//@   ensures ok && p.msgLength != 10 && fc == 36 ==> cast(dataItem, *FloatNode).byteSize == 4 && len(cast(dataItem, *FloatNode).values)*4 == dl
+//@   ensures ok && p.msgLength != 10 && fc == 32 ==> cast(dataItem, *FloatNode).byteSize == 8 && len(cast(dataItem, *FloatNode).values)*8 == dl
+//@   ensures ok && p.msgLength != 10 && fc == 25 ==> forall i int :: 0 <= i && i < dl ==> cast(dataItem, *IntNode).values[i] == int8(p.input[body+i])
+//@   ensures ok && p.msgLength != 10 && fc == 26 ==> forall i int :: 0 <= i && 2*i < dl ==> cast(dataItem, *IntNode).values[i] == int16(specBE16(p.input[body+2*i], p.input[body+2*i+1]))
+//@   ensures ok && p.msgLength != 10 && fc == 41 ==> forall i int :: 0 <= i && i < dl ==> cast(dataItem, *UintNode).values[i] == p.input[body+i]
+//@   ensures ok && p.msgLength != 10 && fc == 42 ==> forall i int :: 0 <= i && 2*i < dl ==> cast(dataItem, *UintNode).values[i] == specBE16(p.input[body+2*i], p.input[body+2*i+1])
+//@   allocates ite(p.msgLength == 10, 64, ite(ok, 512*(p.pos - q) - 128, 512*(len(p.input) - q) + 1024))
+//@   allocates_on_panic 512*(len(p.input) - p.pos) + 1024
+//@   loop 1
+//@     invariant 1 <= lengthBytesCount && lengthBytesCount <= 3 && lengthBytesCount == nlb && len(lengthBytes) == lengthBytesCount
+//@     invariant 0 <= rangeindex+1 && rangeindex+1 <= lengthBytesCount && p.pos == q + 1 && q < len(p.input) && lengthBytesCount <= len(p.input) - p.pos
+//@     invariant length == specDecPrefix(lengthBytesCount, rangeindex+1, p.input[q+1], p.input[q+2], p.input[q+3])
+//@   loop 2
+//@     invariant allocated() - old(allocated()) <= 512*(p.pos - body) - 64*i
+//@     invariant 0 <= i && i <= length && len(values) == i && fresh(values) && body <= p.pos && p.pos <= len(p.input) && length == dl
+//@     invariant forall k int :: 0 <= k && k < i ==> typeis(values[k], ItemNode)
+//@   loop 3
+//@     invariant allocated() - old(allocated()) <= 16*length + 16*(rangeindex+1)
+//@     invariant 0 <= rangeindex+1 && rangeindex+1 <= length && len(values) == length && fresh(values) && p.pos == body && length == dl && length <= len(p.input) - p.pos
+//@     invariant forall k int :: 0 <= k && k <= rangeindex ==> typeis(values[k], int) && ival(values[k]) == p.input[body+k]
+//@   loop 4
+//@     invariant allocated() - old(allocated()) <= 16*length + 16*(rangeindex+1)
+//@     invariant 0 <= rangeindex+1 && rangeindex+1 <= length && len(values) == length && fresh(values) && p.pos == body && length == dl && length <= len(p.input) - p.pos
+//@     invariant forall k int :: 0 <= k && k <= rangeindex ==> typeis(values[k], bool) && bval(values[k]) == (p.input[body+k] != 0)
+
+//@ func (*parser).parseMessage
+//@   property C03 C14 C01 C07 C11
+//@   bounded_view p.input
+//@   maypanic
+//@   modifies p.pos, p.msg
+//@   requires p.pos == 4 && len(p.input) >= 14 && p.msgLength == len(p.input) - 4
+//@   allocates 512*len(p.input) + 2048
+//@   allocates_on_panic 512*len(p.input) + 2048
+//@   let st = p.input[9]
+//@   let m = cast(p.msg, *DataMessage)
+//@   let c = cast(p.msg, *ControlMessage)
+//@   ensures ok ==> p.input[8] == 0 && specDefinedSType(st)
+//@   ensures ok && st == 0 ==> p.pos == len(p.input) && typeis(p.msg, *DataMessage) && fresh(p.msg)
+//@   ensures ok && st == 0 ==> m.stream == p.input[6] % 128 && m.function == p.input[7] && m.waitBit == p.input[6] / 128
+//@   ensures ok && st == 0 ==> m.sessionID == specBE16(p.input[4], p.input[5]) && m.name == "" && m.direction == "H<->E"
+//@   ensures ok && st == 0 ==> len(m.systemBytes) == 4 && fresh(m.systemBytes) && (forall k int :: 0 <= k && k < 4 ==> m.systemBytes[k] == p.input[10+k])
+//@   ensures ok && st == 0 && p.msgLength == 10 ==> typeis(m.dataItem, emptyItemNode)
+//@   ensures ok && st != 0 ==> p.msgLength == 10 && typeis(p.msg, *ControlMessage) && fresh(p.msg) && len(c.header) == 10 && fresh(c.header)
+//@   ensures ok && st != 0 ==> forall k int :: 0 <= k && k < 10 ==> c.header[k] == p.input[4+k]
+
+//@ func Parse
+//@   property C03 C07 C01 C14 C11
+//@   recover
+//@   bounded_view input
+//@   allocates 512*len(input) + 4096
+//@   let st = input[9]
+//@   let m = cast(msg, *DataMessage)
+//@   let c = cast(msg, *ControlMessage)
+//@   ensures ok ==> len(input) >= 14 && specBE32(input[0], input[1], input[2], input[3]) == len(input) - 4 && input[8] == 0 && specDefinedSType(st)
+//@   ensures ok && st == 0 ==> typeis(msg, *DataMessage) && fresh(msg)
+//@   ensures ok && st == 0 ==> m.stream == input[6] % 128 && m.function == input[7] && m.waitBit == input[6] / 128
+//@   ensures ok && st == 0 ==> m.sessionID == specBE16(input[4], input[5]) && m.name == "" && m.direction == "H<->E"
+//@   ensures ok && st == 0 ==> len(m.systemBytes) == 4 && fresh(m.systemBytes) && (forall k int :: 0 <= k && k < 4 ==> m.systemBytes[k] == input[10+k])
+//@   ensures ok && st == 0 && len(input) == 14 ==> typeis(m.dataItem, emptyItemNode)
+//@   ensures ok && st != 0 ==> len(input) == 14 && typeis(msg, *ControlMessage) && fresh(msg) && len(c.header) == 10 && fresh(c.header)
+//@   ensures ok && st != 0 ==> forall k int :: 0 <= k && k < 10 ==> c.header[k] == input[4+k]
+//@   rac_ensures ok == racAccepts(input)
+//@   rac_ensures ok ==> racReencodes(input, msg)
+//@   rac_ensures racAllocLinear(input)
+
+// ---------------------------------------------------------------------------------------------
+// Run-time oracle (used by rac_ensures only: bounded search and replay, never counted as proved).
+// An independent reference for "one well-formed HSMS message" written from SEMI E5/E37 and the statement of C03:
+// racNormalise returns the input with every length field rewritten to its shortest form and every boolean byte to 0/1,
+// and ok == false when the input is not a well-formed, representable message.
+
+func racItem(b []byte, pos int, out *[]byte) (next int, ok bool) {
+	if pos >= len(b) {
+		return 0, false
+	}
+	fb := b[pos]
+	nlb := int(fb & 3)
+	code := int(fb >> 2)
+	if nlb == 0 || !specIsItemCode(code) || pos+1+nlb > len(b) {
+		return 0, false
+	}
+	n := 0
+	for i := 0; i < nlb; i++ {
+		n = n<<8 | int(b[pos+1+i])
+	}
+	body := pos + 1 + nlb
+	emitHeader := func(count int) {
+		switch {
+		case count <= 255:
+			*out = append(*out, byte(code<<2|1), byte(count))
+		case count <= 65535:
+			*out = append(*out, byte(code<<2|2), byte(count>>8), byte(count))
+		default:
+			*out = append(*out, byte(code<<2|3), byte(count>>16), byte(count>>8), byte(count))
+		}
+	}
+	if code == 0 {
+		emitHeader(n)
+		p := body
+		for i := 0; i < n; i++ {
+			var ok bool
+			p, ok = racItem(b, p, out)
+			if !ok {
+				return 0, false
+			}
+		}
+		return p, true
+	}
+	if n > len(b)-body {
+		return 0, false
+	}
+	payload := b[body : body+n]
+	w := 1
+	switch code {
+	case 26, 42:
+		w = 2
+	case 28, 36, 44:
+		w = 4
+	case 24, 32, 40:
+		w = 8
+	}
+	if n%w != 0 {
+		return 0, false
+	}
+	emitHeader(n)
+	switch code {
+	case 9: // boolean: normalised to 0/1
+		for _, v := range payload {
+			if v != 0 {
+				v = 1
+			}
+			*out = append(*out, v)
+		}
+		return body + n, true
+	case 16: // 7-bit ASCII
+		for _, v := range payload {
+			if v >= 128 {
+				return 0, false
+			}
+		}
+	case 36: // F4: finite
+		for i := 0; i < n; i += 4 {
+			if payload[i]&0x7f == 0x7f && payload[i+1]&0x80 != 0 {
+				return 0, false
+			}
+		}
+	case 32: // F8: finite
+		for i := 0; i < n; i += 8 {
+			if payload[i]&0x7f == 0x7f && payload[i+1]&0xf0 == 0xf0 {
+				return 0, false
+			}
+		}
+	}
+	*out = append(*out, payload...)
+	return body + n, true
+}
+
+func racNormalise(b []byte) ([]byte, bool) {
+	if len(b) < 14 || int(b[0])<<24|int(b[1])<<16|int(b[2])<<8|int(b[3]) != len(b)-4 {
+		return nil, false
+	}
+	if b[8] != 0 || !specDefinedSType(int(b[9])) {
+		return nil, false
+	}
+	if b[9] != 0 {
+		return append([]byte{}, b...), len(b) == 14
+	}
+	if b[6]>>7 == 1 && b[7]%2 == 0 {
+		return nil, false // W-bit on a reply message is not representable
+	}
+	out := append([]byte{0, 0, 0, 0}, b[4:14]...)
+	if len(b) > 14 {
+		next, ok := racItem(b, 14, &out)
+		if !ok || next != len(b) {
+			return nil, false
+		}
+	}
+	n := len(out) - 4
+	out[0], out[1], out[2], out[3] = byte(n>>24), byte(n>>16), byte(n>>8), byte(n)
+	return out, true
+}
+
+// racAccepts: the byte string is one well-formed, representable HSMS message.
+func racAccepts(b []byte) bool {
+	_, ok := racNormalise(b)
+	return ok
+}
+
+// racReencodes: the decoded message denotes exactly the input (up to the normalisation above).
+func racReencodes(b []byte, msg interface{ ToBytes() []byte }) bool {
+	want, ok := racNormalise(b)
+	if !ok || msg == nil {
+		return false
+	}
+	got := msg.ToBytes()
+	if len(got) != len(want) {
+		return false
+	}
+	for i := range got {
+		if got[i] != want[i] {
+			return false
+		}
+	}
+	return true
+}
+
+// racAllocLinear decodes the input once more and compares the bytes the Go runtime reports as allocated meanwhile with a
+// generous linear budget (the constants are far above what the ghost accounting proves, so that scheduler and test-harness
+// noise cannot raise an alarm; an allocation sized from a declared length exceeds it by orders of magnitude).
+func racAllocLinear(input []byte) bool {
+	var m0, m1 runtime.MemStats
+	runtime.ReadMemStats(&m0)
+	func() {
+		defer func() { recover() }()
+		Parse(input)
+	}()
+	runtime.ReadMemStats(&m1)
+	return m1.TotalAlloc-m0.TotalAlloc <= uint64(2048*len(input)+(1<<20))
+}
